@@ -261,23 +261,40 @@ P2P_GOALS = {
                                         {"a": "Pub", "s": "s1", "t": "p12", "c": "c2", "noecho": False, "chan": False},
                                         {"a": "Pub", "s": "s2", "t": "p12", "c": "c1", "noecho": False, "chan": False}]),
 }
+# goals on read/received marks (used by the properties whose request kinds include notes)
+MARK_GOALS = {
+    "recv_ahead_of_read": ('st.topics["g1"].exists /\\ st.cache["g1"].loaded /\\ "g1" \\in M(st.sess["s2"].subs) '
+                           '/\\ st.subs["g1"]["u2"].st = "live" /\\ st.subs["g1"]["u2"].read = 1 /\\ st.subs["g1"]["u2"].recv = 3',
+                           [{"a": "Note", "s": "s2", "t": "g1", "what": "recv", "seq": 2, "chan": False},
+                            {"a": "Note", "s": "s2", "t": "g1", "what": "recv", "seq": 3, "chan": False},
+                            {"a": "Note", "s": "s2", "t": "g1", "what": "read", "seq": 1, "chan": False},
+                            {"a": "Note", "s": "s2", "t": "g1", "what": "read", "seq": 2, "chan": False},
+                            {"a": "Note", "s": "s2", "t": "g1", "what": "recv", "seq": 1, "chan": False},
+                            {"a": "Reload", "t": "g1"},
+                            {"a": "Note", "s": "s2", "t": "g1", "what": "recv", "seq": 2, "chan": False},
+                            {"a": "Note", "s": "s2", "t": "g1", "what": "read", "seq": 3, "chan": False},
+                            {"a": "Note", "s": "s2", "t": "g1", "what": "read", "seq": 4, "chan": False}]),
+}
 
 
-def goal_behaviours(ctx, users, sess, topics, names=None, maxsubs=3):
+def goal_behaviours(ctx, users, sess, topics, names=None, maxsubs=3, marks=False):
     import concurrent.futures
     goals = dict(GOALS)
     p2p = "p12" in topics
     if p2p:
         goals.update(P2P_GOALS)
+    if marks:
+        goals.update(MARK_GOALS)
     names = names or list(goals)
     consts = mc_consts(users, sess, topics, DEV_BUILT, ["-", "N", "JR", "JRS", "JRA", "JRASO"], ["-", "N", "JR", "JRS", "JRAS", "JRASO"],
                        ["NewGrp", "Sub", "Leave", "SetSelf", "SetOther", "DelSub", "DelTopic", "Unload"], [], maxsubs=maxsubs)
     consts_p2p = mc_consts(users, sess, topics, DEV_BUILT, ["-"], ["-"], ["P2P"], [], maxseq=3, maxsubs=maxsubs)
+    consts_marks = mc_consts(users, sess, topics, DEV_BUILT, ["-", "JRW"], ["-", "JRW"], ["NewGrp", "Sub", "Pub", "Note"], [], maxseq=3, maxsubs=maxsubs)
 
     def one(name):
         expr, tail = goals[name]
         mod = "Goal_" + name
-        cs = consts_p2p if name in P2P_GOALS else consts
+        cs = consts_p2p if name in P2P_GOALS else consts_marks if name in MARK_GOALS else consts
         defs = "\n".join("c_%s == %s" % (k, v) for k, v in cs.items())
         with open(os.path.join(ctx.specdir, mod + ".tla"), "w") as fh:
             fh.write("---- MODULE %s ----\nEXTENDS TopicCore_MC\n%s\nNotGoal == ~(%s)\n====\n" % (mod, defs, expr))
